@@ -231,6 +231,28 @@ func genRawOps(r *common.Rand, g *dag.Graph, n int) []string {
 				groups[w] += strconv.Itoa(any())
 			}
 			ops = append(ops, "C"+strings.Join(groups, "|"))
+		case x < 7 && len(g.Nodes) >= 4:
+			// Index, Remove and Predecessors calls on pairwise distinct nodes from as many goroutines:
+			// the final graph does not depend on the interleaving (the danglings and the concurrent
+			// answers do: not compared)
+			perm := make([]int, len(g.Nodes))
+			for j := range perm {
+				perm[j] = j
+			}
+			common.Shuffle(r, perm)
+			k := 3 + r.Intn(len(perm)-2)
+			var items []string
+			for j, nd := range perm[:k] {
+				switch (j + r.Intn(2)) % 3 {
+				case 0:
+					items = append(items, fmt.Sprintf("i%d", nd))
+				case 1:
+					items = append(items, fmt.Sprintf("r%d", nd))
+				default:
+					items = append(items, fmt.Sprintf("q%d", nd))
+				}
+			}
+			ops = append(ops, "M"+strings.Join(items, "|"))
 		case x < 32:
 			ops = append(ops, fmt.Sprintf("I%d", any()))
 		case x < 48:
@@ -291,10 +313,58 @@ func runRaw(g *dag.Graph, ops []string, origin string) {
 		if len(o) > 1 {
 			arg, _ = strconv.Atoi(o[1:])
 		}
-		if o != "Z" && o[0] != 'C' && (arg < 0 || arg >= len(g.Nodes)) {
+		if o != "Z" && o[0] != 'C' && o[0] != 'M' && (arg < 0 || arg >= len(g.Nodes)) {
 			continue
 		}
 		switch o[0] {
+		case 'M':
+			items := strings.Split(o[1:], "|")
+			errs := make([]error, len(items))
+			var wg sync.WaitGroup
+			start := make(chan struct{})
+			for k, it := range items {
+				i, cerr := strconv.Atoi(it[1:])
+				if cerr != nil || i < 0 || i >= len(g.Nodes) {
+					continue
+				}
+				wg.Add(1)
+				go func(k int, kind byte, i int) {
+					defer wg.Done()
+					<-start
+					switch kind {
+					case 'i':
+						errs[k] = mem.Index(ctx, f, g.Nodes[i].Desc)
+					case 'r':
+						mem.Remove(g.Nodes[i].Desc)
+					case 'q':
+						mem.Predecessors(ctx, g.Nodes[i].Desc)
+					}
+				}(k, it[0], i)
+			}
+			close(start)
+			wg.Wait()
+			for k, it := range items {
+				i, cerr := strconv.Atoi(it[1:])
+				if cerr != nil || i < 0 || i >= len(g.Nodes) {
+					continue
+				}
+				switch it[0] {
+				case 'i':
+					switch {
+					case errs[k] == nil && sok(i):
+						toks = append(toks, "ok")
+						present[i] = true
+					case errors.Is(errs[k], errdef.ErrNotFound) && !sok(i):
+						toks = append(toks, "nf")
+					default:
+						toks = append(toks, "err")
+						fail("index-error", fmt.Sprintf("concurrent Index(%d): %v (fetchable=%v)", i, errs[k], sok(i)))
+					}
+				case 'r':
+					delete(present, i)
+				}
+			}
+			run.Count("raw-concurrent-mixed-block")
 		case 'C':
 			groups := parseGroups(o[1:], len(g.Nodes))
 			res := make([][]error, len(groups))
@@ -472,6 +542,22 @@ func filterModelOps(g *dag.Graph, ops []string) []string {
 	for _, o := range ops {
 		if o == "Z" {
 			out = append(out, o)
+			continue
+		}
+		if o[0] == 'M' {
+			// operations on pairwise distinct nodes commute: the model runs them in the listed order
+			for _, it := range strings.Split(o[1:], "|") {
+				i, err := strconv.Atoi(it[1:])
+				if err != nil || i < 0 || i >= len(g.Nodes) {
+					continue
+				}
+				switch it[0] {
+				case 'i':
+					out = append(out, fmt.Sprintf("I%d", i))
+				case 'r':
+					out = append(out, fmt.Sprintf("D%d", i))
+				}
+			}
 			continue
 		}
 		if o[0] == 'C' {
@@ -2253,7 +2339,7 @@ func main() {
 // thorough tier produces far more).  Returns the unmet ones.
 func coverageFloors() []string {
 	floors := map[string]int{
-		"raw": 1000, "raw-concurrent-index-block": 300, "perm-raw": 10, "perm-memory-store": 10,
+		"raw": 1000, "raw-concurrent-index-block": 300, "raw-concurrent-mixed-block": 300, "perm-raw": 10, "perm-memory-store": 10,
 		"burst-push": 50, "burst-push-tag-untag": 20, "chain": 30, "ftitle": 100,
 		"file-push-error-but-stored": 10, "ftitle-manifest-alt": 30, "ftitle-manifest-bad": 10,
 		"store-oci": 200, "store-memory": 40, "store-file": 40,
